@@ -490,10 +490,40 @@ def strategy(always_restart=False):
 
 
 def execute_live(case, prefixes):
-    """Common execute() body for the checks that own a live shard."""
+    """Common execute() body for the checks that own a live shard.
+
+    The live tier runs on the wall clock, under whatever load the machine
+    has: an observation is only reported when it reproduces (the same
+    signature in at least 2 of 3 runs of the scenario); anything else is
+    counted as inconclusive and logged to .work/live-unconfirmed.jsonl."""
     viols, incon, info = run_scenario(case)
     mine = [v for v in viols if v["signature"].startswith(prefixes)]
     classes = ['live']
+    if mine:
+        votes = {}
+        for v in mine:
+            votes[v["signature"]] = 1
+        for k_ in range(2):
+            c2 = dict(case, token='%s%d' % (case["token"], k_))
+            v2, _i2, _n2 = run_scenario(c2)
+            for sig in set(x["signature"] for x in v2):
+                if sig in votes:
+                    votes[sig] += 1
+        confirmed = [v for v in mine if votes[v["signature"]] >= 2]
+        if len(confirmed) < len(mine):
+            classes.append('live-unconfirmed')
+            try:
+                root = os.path.dirname(os.path.dirname(
+                    os.path.abspath(__file__)))
+                os.makedirs(os.path.join(root, '.work'), exist_ok=True)
+                with open(os.path.join(root, '.work',
+                                       'live-unconfirmed.jsonl'), 'a') as f:
+                    f.write(json.dumps({
+                        "case": case, "votes": votes,
+                        "messages": [v["message"] for v in mine]}) + "\n")
+            except OSError:
+                pass
+        mine = confirmed
     if incon:
         classes.append('live-inconclusive')
     if info.get("generations", 0) >= 2:
